@@ -3,8 +3,10 @@ package main
 import (
 	"fmt"
 	"go/ast"
+	"go/constant"
 	"go/token"
 	"sort"
+	"strconv"
 	"strings"
 
 	"golang.org/x/tools/go/cfg"
@@ -23,6 +25,7 @@ func checkC10(w *World, r *Report) {
 	r.Assumptions = []string{"Route values are only produced by NewRoute (C03.4); a zero Route built by user code is outside the contract"}
 	checkC10MustValidate(w, r)
 	checkC10Scanner(w, r)
+	checkC10HostAlphabet(w, r)
 }
 
 func checkC10MustValidate(w *World, r *Report) {
@@ -594,4 +597,184 @@ func sortedInts(m map[int]bool) []int {
 	}
 	sort.Ints(out)
 	return out
+}
+
+// checkC10HostAlphabet: the static bytes of a hostname are classified by a tagless switch over one byte. The switch only
+// compares that byte with constants, so it can be evaluated for all 256 values: the bytes that do not end in the
+// rejecting clause are the accepted alphabet, which the documented grammar (LDH hostnames) fixes to letters, digits, '-'
+// and the label separator '.'.
+func checkC10HostAlphabet(w *World, r *Report) {
+	ru := r.Rule("C10.7", "hostname alphabet: evaluating the byte classification of the validator's hostname branch for all 256 byte values, the bytes that are not rejected outright are exactly the letters, the digits, '-' and '.' (LDH rule)", 1)
+	af := w.astFuncOf(modulePath, "Router.parseRoute")
+	info := af.pkg.TypesInfo
+	var sw *ast.SwitchStmt
+	byteVar := ""
+	ast.Inspect(af.decl.Body, func(n ast.Node) bool {
+		s, ok := n.(*ast.SwitchStmt)
+		if !ok || s.Tag != nil || s.Init != nil {
+			return true
+		}
+		// every case expression mentions the same single identifier, of type byte
+		names := map[string]int{}
+		ncase := 0
+		for _, cl := range s.Body.List {
+			for _, e := range cl.(*ast.CaseClause).List {
+				ncase++
+				seen := map[string]bool{}
+				ast.Inspect(e, func(m ast.Node) bool {
+					if id, ok := m.(*ast.Ident); ok {
+						if tv, ok := info.Types[id]; ok && tv.Value == nil && tv.Type != nil && (tv.Type.String() == "uint8" || tv.Type.String() == "byte") {
+							seen[id.Name] = true
+						}
+					}
+					return true
+				})
+				for k := range seen {
+					names[k]++
+				}
+			}
+		}
+		for k, c := range names {
+			if c == ncase && ncase >= 3 {
+				// must be the hostname branch: mentions '.' and '-'
+				txt := ""
+				for _, cl := range s.Body.List {
+					for _, e := range cl.(*ast.CaseClause).List {
+						txt += exprStr(e) + ";"
+					}
+				}
+				if strings.Contains(txt, "'-'") && (strings.Contains(txt, "'.'") || strings.Contains(txt, "dotDelim")) {
+					sw, byteVar = s, k
+				}
+			}
+		}
+		return true
+	})
+	if sw == nil {
+		r.Unrecognised("C10.7: the byte classification of the hostname branch was not found in parseRoute")
+		return
+	}
+	var num func(e ast.Expr, b int64) (int64, bool)
+	num = func(e ast.Expr, b int64) (int64, bool) {
+		if p, ok := e.(*ast.ParenExpr); ok {
+			return num(p.X, b)
+		}
+		if id, ok := e.(*ast.Ident); ok && id.Name == byteVar {
+			return b, true
+		}
+		if tv, ok := info.Types[e]; ok && tv.Value != nil {
+			if v, ok := constantToInt64(tv.Value); ok {
+				return v, true
+			}
+		}
+		return 0, false
+	}
+	var eval func(e ast.Expr, b int64) (bool, bool)
+	eval = func(e ast.Expr, b int64) (bool, bool) {
+		switch x := e.(type) {
+		case *ast.ParenExpr:
+			return eval(x.X, b)
+		case *ast.UnaryExpr:
+			if x.Op == token.NOT {
+				v, k := eval(x.X, b)
+				return !v, k
+			}
+		case *ast.BinaryExpr:
+			switch x.Op {
+			case token.LAND:
+				l, lk := eval(x.X, b)
+				rr, rk := eval(x.Y, b)
+				return l && rr, lk && rk
+			case token.LOR:
+				l, lk := eval(x.X, b)
+				rr, rk := eval(x.Y, b)
+				return l || rr, lk && rk
+			case token.LSS, token.LEQ, token.GTR, token.GEQ, token.EQL, token.NEQ:
+				l, lk := num(x.X, b)
+				rr, rk := num(x.Y, b)
+				if !lk || !rk {
+					return false, false
+				}
+				switch x.Op {
+				case token.LSS:
+					return l < rr, true
+				case token.LEQ:
+					return l <= rr, true
+				case token.GTR:
+					return l > rr, true
+				case token.GEQ:
+					return l >= rr, true
+				case token.EQL:
+					return l == rr, true
+				default:
+					return l != rr, true
+				}
+			}
+		}
+		return false, false
+	}
+	rejects := func(cl *ast.CaseClause) bool { // the clause does nothing but return an error
+		if len(cl.Body) == 0 {
+			return false
+		}
+		ret, ok := cl.Body[0].(*ast.ReturnStmt)
+		return ok && len(ret.Results) > 0 && !isNilIdent(info, ret.Results[len(ret.Results)-1])
+	}
+	var extra, missing []string
+	for b := int64(0); b < 256; b++ {
+		var chosen *ast.CaseClause
+		var def *ast.CaseClause
+		unknown := false
+		for _, st := range sw.Body.List {
+			cl := st.(*ast.CaseClause)
+			if cl.List == nil {
+				def = cl
+				continue
+			}
+			if chosen != nil {
+				continue
+			}
+			for _, e := range cl.List {
+				v, k := eval(e, b)
+				if !k {
+					unknown = true
+				}
+				if v && k {
+					chosen = cl
+				}
+			}
+		}
+		if unknown {
+			r.Unrecognised("C10.7: a case of the hostname byte classification at %s is not a comparison of the byte with constants", w.Pos(sw.Pos()))
+			return
+		}
+		if chosen == nil {
+			chosen = def
+		}
+		accepted := chosen != nil && !rejects(chosen)
+		want := (b >= 'a' && b <= 'z') || (b >= 'A' && b <= 'Z') || (b >= '0' && b <= '9') || b == '-' || b == '.'
+		if accepted && !want {
+			extra = append(extra, strconv.QuoteRune(rune(b)))
+		}
+		if !accepted && want {
+			missing = append(missing, strconv.QuoteRune(rune(b)))
+		}
+	}
+	why := ""
+	if len(extra) > 0 {
+		why += "accepted although not LDH: " + strings.Join(extra, " ") + " "
+	}
+	if len(missing) > 0 {
+		why += "rejected although LDH: " + strings.Join(missing, " ")
+	}
+	ru.Check("hostname byte classification in parseRoute", w.Pos(sw.Pos()), "accepted static bytes = [A-Za-z0-9-.]", why == "", orDefault(strings.TrimSpace(why), "64 bytes accepted, 192 rejected"))
+}
+
+func constantToInt64(v interface{ String() string }) (int64, bool) {
+	if cv, ok := v.(constant.Value); ok {
+		if cv.Kind() == constant.Int {
+			return constant.Int64Val(cv)
+		}
+	}
+	return 0, false
 }
